@@ -1264,11 +1264,12 @@ fn all_clients_dropped_before(c: &Case, t: &Trace, p: usize) -> bool {
 fn signature(c: &Case, t: &Trace) -> String {
     let calls = collect(t);
     let mut s = String::new();
+    // the known classes carry one signature each, so that they cannot crowd other failures out of a report
     if calls.iter().any(|k| k.flags & 16 != 0) && c.lim != 0 && c.flav < 6 {
-        s.push_str("F6:");
+        return "F6:oversized-reply".into();
     }
     if calls.iter().any(|k| k.flags & 32 != 0) && c.flav < 6 {
-        s.push_str("F12:");
+        return "F14:oversized-request".into();
     }
     s.push_str(if c.mode == 0 { "scr" } else { "race" });
     s.push_str(&format!(":f{}{}:p{}:c{}", c.flav, if c.spawn && (c.flav == 3 || c.flav == 4) { "s" } else { "n" }, c.pol, c.ncl));
@@ -1428,11 +1429,11 @@ fn gen_case(r: &mut Rng, mode: u64, profile: u64) -> Vec<u128> {
 }
 
 /// The known classes, as small scripted cases: a call whose reply exceeds the client's limit (F6) /
-/// whose request exceeds it (F12), surrounded by ordinary calls of the same and of other clients.
+/// whose request exceeds it (F14), surrounded by ordinary calls of the same and of other clients.
 fn gen_known(r: &mut Rng, which: u64) -> Vec<u128> {
     let flav = if which == 1 { *r.pick(&[1u64, 2, 3, 4, 4, 5]) } else { *r.pick(&[1u64, 2, 3, 4, 5]) };
     let spawn = r.below(2);
-    // F12: every client on its own port (the model has no notion of clones sharing one)
+    // F14: every client on its own port (the model has no notion of clones sharing one)
     let (ncl, cmode) = if which == 2 { (r.range(1, 3), 1) } else { (r.range(2, 4), r.below(2)) };
     let mut v: Vec<u128> = vec![0, flav as u128, spawn as u128, 0, ncl as u128, cmode as u128, 0, 2000];
     let push = |v: &mut Vec<u128>, o: [u64; 5]| v.extend(o.iter().map(|x| *x as u128));
